@@ -118,6 +118,12 @@ def systematic():
         add(caps, [[sel([(False, 1, 0), (True, 0, 0)])], [sel([(True, 1, 0), (False, 0, 0)])]], "mirror")
         add(caps, [[sel([(True, 0, 0), (False, 1, 0)]), sel([(True, 0, 0), (False, 1, 0)])],
                    [sel([(False, 0, 0), (True, 1, 0)]), sel([(False, 0, 0), (True, 1, 0)])]], "mirror")
+        # a select that panics (send on a closed channel) must not stay registered on its other channels:
+        # the goroutine may recover, and later non-blocking operations on those channels must still not block
+        add(caps, [[op("close", 0), sel([(True, 0, 0), (True, 1, 0)])], [sel([(False, 1, 0)], True)]], "selpanic")
+        add(caps, [[sel([(True, 0, 0), (True, 1, 0)])], [op("close", 0), sel([(False, 1, 0)], True)]], "selpanic")
+        add(caps, [[sel([(True, 1, 0), (False, 0, 0), (True, 0, 0)])], [op("close", 0)], [sel([(False, 1, 0)], True), sel([(False, 1, 0)], True)]], "selpanic")
+        add(caps, [[op("close", 1), sel([(False, 0, 0), (True, 1, 0)])], [sel([(True, 0, 0)], True), sel([(True, 0, 0)], True)]], "selpanic")
         # select with default among two cases
         add(caps, [[sel([(True, 0, 0), (False, 1, 0)], True)], [op("recv", 0)], [op("send", 1)]], "sel2d")
         # select against close
@@ -442,12 +448,12 @@ def outcome_of_hist(sc, h):
 
 
 def run_impl_model(chk, thorough, scen_path, allowed, byid):
-    """ChanImpl (z_chan.go as PlusCal) over every select-free scenario: its terminal outcomes must be outcomes the
-    language-level model allows (B refines A at outcome level).  Design-level only: reported, never a verdict."""
+    """ChanImpl (z_chan.go incl. TrySelect/Select as PlusCal) over every scenario: its terminal outcomes must be outcomes
+    the language-level model allows (B refines A at outcome level).  Design-level only: reported, never a verdict."""
     rd = chk.rd.path
     cfg = os.path.join(rd, "impl_run.cfg")
-    C.write_cfg(cfg, constants={"HandOffBug": "FALSE", "SpuriousBudget": 2 if thorough else 1, "defaultInitValue": 0},
-                invariants=["MutexOwnerSane", "CapBound", "Emit"])
+    C.write_cfg(cfg, constants={"HandOffBug": "FALSE", "SpuriousBudget": 2 if thorough else 1, "WithSelect": "TRUE", "SelPanicBug": "FALSE", "defaultInitValue": 0},
+                invariants=["MutexOwnerSane", "CapBound", "SelCounts", "Withdrawn", "Emit"])
     res = C.tlc(SPEC, "ChanImpl", cfg, rd, timeout=3000, copy_extra=[scen_path], parse_json=False)
     chk.add_tlc(res, "ChanImpl")
     implout = {}
